@@ -522,6 +522,8 @@ class _Frame:
             return v != 0
         if isinstance(v, EnumVal):
             return True
+        if getattr(type(v), "_xeval_truth", False):
+            return bool(v)  # an analysis-side value that states its own truth (the rule that supplies it runs both ways)
         raise self.bad(f"branch condition does not fold to a constant ({type(v).__name__})", node)
 
     def e_Constant(self, n):
@@ -729,7 +731,10 @@ class _Frame:
                     b = b.value
                 if isinstance(a, EnumVal) and isinstance(b, str):
                     a = a.value
-                res = any(a == x for x in b) if not isinstance(b, (str, dict)) else a in b
+                if getattr(type(b), "_xeval_open", False) and hasattr(type(b), "__contains__"):
+                    res = bool(b.__contains__(a))  # an analysis-side container decides membership itself
+                else:
+                    res = any(a == x for x in b) if not isinstance(b, (str, dict)) else a in b
                 return res if isinstance(op, ast.In) else not res
             if isinstance(op, ast.Is):
                 if isinstance(a, EnumVal) and isinstance(b, EnumVal):
